@@ -28,6 +28,15 @@ def gen_inputs(ctx):
     ]
     for f in fixed:
         out.append(("fixed", f))
+    # verbs that are not commands but ARE names the server object knows (its methods and attributes): to the
+    # dispatcher they are unknown verbs like any other
+    import aioftp
+
+    known = set(aioftp.Server(users=[]).commands_mapping)
+    names = sorted(n for n in dir(aioftp.Server) if not n.startswith("__") and n.lower() not in known)
+    for n in names:
+        for line in (n.upper(), n + " x", n.upper() + " x\r\n" + n.upper()):
+            out.append(("server-attribute-verb", line.encode("utf-8") + b"\r\n"))
     for _ in range(ctx.pick(150, 3000)):
         n = rng.randint(1, 3)
         buf = b""
